@@ -21,6 +21,7 @@ Sels == <<"a", "a:hover", "@media (min-width: 10px)", "a::before", "b[x=\"{\"]",
 Names == <<"color", "--v", "$v", "margin", "-webkit-x">>
 Vals == <<"red", "\"x;y\"", "url(a:b)", "1px  solid", "'{}'", "calc(1px + (2px))", "\"it's }\"", "'a\"{b;'", "url(\"x;y\")", "f(\")\", '(')", "50%", "10% 20%", "\"a\\\"b;\"", "red !important", "1px/* ; } */ 2px", "f(1 /* ( ' */ )">>     \* 16: a comment inside parentheses that holds a bracket and a quote  \* 7, 8: a string holding the other kind of quote
 BadVal == "f(c;d)"        \* a semicolon inside parentheses: known finding F16, generated only when SemiInParens
+BadVal2 == "calc(1px - #{$x})"   \* braces inside parentheses (SCSS interpolation): known finding F50, generated only when SemiInParens; hasF16 is set for both
 
 VARIABLES doc, nodes, evs, open, nseg, hasF16
 vars == <<doc, nodes, evs, open, nseg, hasF16>>
@@ -49,7 +50,7 @@ CloseRule == /\ Step /\ open # <<>>
              /\ evs' = Append(evs, Ev("blockEnd", L, L + 1, L))
              /\ open' = Front(open) /\ UNCHANGED hasF16
 Decl == /\ Step
-        /\ \E ni \in NameIdx, v \in {Vals[i] : i \in ValIdx} \cup (IF SemiInParens THEN {BadVal} ELSE {}), loose \in (IF Loose THEN BOOLEAN ELSE {FALSE}) :
+        /\ \E ni \in NameIdx, v \in {Vals[i] : i \in ValIdx} \cup (IF SemiInParens THEN {BadVal, BadVal2} ELSE {}), loose \in (IF Loose THEN BOOLEAN ELSE {FALSE}) :
              LET nm == Names[ni]
                  c1 == IF loose THEN " : " ELSE ":"
                  c2 == IF loose THEN " ;" ELSE ";"
@@ -61,7 +62,7 @@ Decl == /\ Step
              IN /\ doc' = doc \o nm \o c1 \o v \o c2
                 /\ nodes' = Append(nodes, Node("d", L, 0, 0, semi + 1, ne, colon, vs, ve, semi))
                 /\ evs' = evs \o <<Ev("propertyName", L, ne, colon), Ev("propertyValue", vs, ve, semi)>>
-                /\ hasF16' = (hasF16 \/ v = BadVal)
+                /\ hasF16' = (hasF16 \/ v \in {BadVal, BadVal2})
         /\ UNCHANGED open
 (* a declaration without semicolon, closed by the "}" of its rule (one step: it must be the last thing in the body) *)
 DeclClose == /\ NoSemi /\ Step /\ open # <<>>
